@@ -199,6 +199,11 @@ def rule_traversals(ctx):
                     root = a
                     while root.get('k') in ('ref', 'wrap', 'unary'):
                         root = root.get('e')
+                    if root.get('k') == 'mcall' and root['method'] in ('clone', 'to_owned', 'cloned') and any(x in (root['recv'].get('ty', '') + root['recv'].get('aty', '')) for x in ('BTreeSet', 'HashSet')):
+                        obs.append(bad('VISITED-DISCIPLINE', '%s/copied-set' % short(fn.path),
+                                       'the recursive call is handed a *copy* of the visited set: what is visited below one member is forgotten for its siblings', rc.get('sp', ''),
+                                       'a node reachable along many paths is walked once per path: exponential time on layered inputs (generation does not finish)'))
+                        continue
                     if root.get('k') == 'path' and root['res'].get('r') == 'local':
                         srcs = fn.binds.get(root['res']['hid'], [])
                         fresh = [s_ for s_ in srcs if s_[0] == 'expr' and s_[1].get('k') in ('call', 'mcall') and
